@@ -34,6 +34,8 @@ LEVEL_TEXT = ("General theorems for the numeric configuration axes (knot range, 
               "on the evaluator.  The correspondence runs every configuration value against geomdl, "
               "GEOMDL_CACHE_SIZE in fresh subprocesses and num_procs in {1,2,4,8} with real process pools.")
 LEVEL_NOTE = "configuration independence = cross-configuration equality up to 1e-9 on every sampled query + general theorems on the model"
+# functions of the numerical core this property rests on that are also tied by the translator (tie theorems: Props/C03.v, Proofs/GenTie*.v)
+TRANSLATED = ["helpers.find_span_linear", "helpers.find_span_binsearch", "helpers.find_spans", "knotvector.normalize"]
 TECHNIQUE = "Coq proofs (induction on the A2.2 scan, loop invariant of the binary search with fuel, list lemmas) + cross-configuration oracles"
 
 
@@ -477,14 +479,17 @@ class Procs(Family):
                 kind = rng.choice(["surface", "surface", "volume"])
                 s = T.random_shape(rng, kind=kind, kvkinds=["uniform", "mult"], maxdeg=2)
                 out.append({"what": "voxelize", "shapes": [s], "sample": rng.choice([3, 4]) if kind == "surface" else 2,
-                            "grid": rng.choice([[2, 2, 3], [3, 2, 2], [3, 3, 3], [2, 3, 4], [2, 2, 2], [4, 2, 3]]), "cubes": rng.random() < 0.3, "modelk": rng.choice([2, 4, 8])})
+                            "grid": rng.choice([[2, 2, 3], [3, 2, 2], [3, 3, 3], [2, 3, 4], [2, 2, 2], [4, 2, 3]]), "cubes": rng.random() < 0.3, "modelk": rng.choice([2, 4, 8]),
+                            # a non-default padding tolerance (keyword tol), large enough to change the fill decision of some voxels
+                            "tol": rng.choice([0.25, 0.125, 0.5]) if i % 6 == 1 else None})
         return out
 
     def _vox(self, c, k):
         def f():
             o = T.build(c["shapes"][0])
             o.sample_size = c["sample"]
-            grid, filled = voxelize.voxelize(o, grid_size=tuple(c["grid"]), use_cubes=c["cubes"], num_procs=k)
+            kw = {"tol": c["tol"]} if c.get("tol") else {}
+            grid, filled = voxelize.voxelize(o, grid_size=tuple(c["grid"]), use_cubes=c["cubes"], num_procs=k, **kw)
             return {"grid": [[list(b[0]), list(b[1])] for b in grid], "filled": [int(x) for x in filled], "pts": [list(p) for p in o.evalpts]}
         return call(f)
 
@@ -511,8 +516,9 @@ class Procs(Family):
             if len(o1["grid"]) * len(o1["pts"]) > 500:
                 return None
             k = c["modelk"]
+            tl = G.Q(c["tol"]) if c.get("tol") else G.Q(TOL8)
             return "(let grid := %s in let pts := %s in andb (eqLnat (find_inouts Qops 1 %s grid pts) %s) (eqLnat (find_inouts Qops %s %s grid pts) %s))" % (
-                G.qlll(o1["grid"]), G.qll(o1["pts"]), G.Q(TOL8), G.nl(o1["filled"]), G.n(k), G.Q(TOL8), G.nl(out[str(k)]["ok"]["filled"]))
+                G.qlll(o1["grid"]), G.qll(o1["pts"]), tl, G.nl(o1["filled"]), G.n(k), tl, G.nl(out[str(k)]["ok"]["filled"]))
         # tessellation: Pool.map over the elements is order preserving: element e contributes per_elem[e] vertices, in order
         o1 = out["1"]["ok"]
         parts = []
